@@ -380,12 +380,13 @@ def calculate_nd_frequencies(
     frequencies, _ = np.histogramdd(data, edges, weights=weights)
     frequencies = _cast_contents(frequencies[ixgrid], dtype)
     if weights is not None:
-        counts, _ = np.histogramdd(data, edges)
-        if counts[ixgrid].sum() == data.shape[0]:
-            # Every row is in a bin: the difference of the two sums would be rounding noise only
-            missing = frequencies.dtype.type(0)
-        else:
-            missing = _cast_contents(weights.sum() - frequencies.sum(), dtype)
+        # The weight of the rows that are in no cell (not a difference of two rounded sums)
+        inside = np.ones(data.shape[0], dtype=bool)
+        for i, (axis_edges, mask) in enumerate(zip(edges, masks)):
+            index = np.searchsorted(axis_edges, data[:, i], side="right") - 1
+            index[data[:, i] == axis_edges[-1]] = len(axis_edges) - 2  # As numpy does
+            inside &= np.isin(index, mask)
+        missing = _cast_contents(weights[~inside].sum(), dtype)
         err_freq, _ = np.histogramdd(data, edges, weights=weights**2)
         errors2 = _cast_contents(err_freq[ixgrid], dtype)
     else:
